@@ -257,6 +257,11 @@ func c01Run(c *core.Ctx, idx int) {
 		// Real lists x real requests.
 		c01Real(c.Env)
 		corp := gen.LoadCorpus(c.Env.RepoDir)
+		if len(corp.Requests) == 0 || len(c01RealRules) == 0 {
+			c.Inconclusive("bundled corpora not found")
+
+			return
+		}
 		for k := 0; k < 6; k++ {
 			cr := corp.Requests[c.Rng.Intn(len(corp.Requests))]
 			t, ok := c01CptTypes[cr.Cpt]
